@@ -5,6 +5,7 @@ rule evaluator on registered documents.
 import Driver.TreeIO
 import AstGrepVerif.Model.Rule
 import AstGrepVerif.Spec.RuleRef
+import AstGrepVerif.Model.Scan
 
 open Lean AGV
 
@@ -215,5 +216,57 @@ where
   kindsGateTop (_core : RuleCore) (_n : Tree) : Bool := true
 
 def ruleOracleOps : List (String × SHandler) := [("oracle:sat", opOracleSat)]
+
+end Driver
+
+namespace Driver
+
+open AGV
+
+/-! ### C01: searching -/
+
+def foundJson (found : Found) : Json :=
+  Json.arr (found.map fun (m, env) => Json.arr #[jNat m.id, envJson env]).toArray
+
+def opFindAll : SHandler := fun st a => do
+  let d ← getDoc st a
+  let cj ← a.getObjVal? "core"
+  let core ← parseCore cj
+  let (locals, globals) ← parseRegistry cj
+  let rx ← parseRegexTable (← a.getObjVal? "regex")
+  let ctx : RCtx := { src := d.src, root := d.tree, regex := regexOracle rx, locals, globals }
+  let start ← getNode d a "start"
+  match findAllNodes ctx (ruleFuel d.tree) core start with
+  | .ok found => pure (st, foundJson found)
+  | .error e => pure (st, abnJson e)
+
+def opCombined : SHandler := fun st a => do
+  let d ← getDoc st a
+  let rx ← parseRegexTable (← a.getObjVal? "regex")
+  let rules ← (← getArr a "rules").toList.mapM fun rj => do
+    let cj ← rj.getObjVal? "core"
+    let core ← parseCore cj
+    let (locals, globals) ← parseRegistry cj
+    pure ({ id := (← getStr rj "id").toList, hasFix := (← getBool rj "hasFix"), core, locals, globals } : ScanRule)
+  let sorted := sortScanRules rules
+  match combinedScan d.src d.tree (regexOracle rx) (ruleFuel d.tree) rules with
+  | .error e => pure (st, abnJson e)
+  | .ok hits =>
+    -- group by rule id, document order inside a rule; rules without a hit are absent
+    let ids := (hits.map (·.1)).eraseDups
+    let entries := ids.filterMap fun idx =>
+      match sorted[idx]? with
+      | none => none
+      | some r =>
+        some (String.ofList r.id, foundJson ((hits.filter (·.1 == idx)).map fun (_, m, env) => (m, env)))
+    pure (st, Json.mkObj entries)
+
+def opFixedString : SHandler := fun st a => do
+  let p ← parsePattern (← a.getObjVal? "p")
+  let s ← parseStrictness (← getStr a "s")
+  pure (st, jBytes (patternFixedString p s))
+
+def scanOps : List (String × SHandler) := [
+  ("find_all", opFindAll), ("combined", opCombined), ("fixed_string", opFixedString)]
 
 end Driver
